@@ -184,6 +184,14 @@ func c18History(c *Case) {
 			if r.Chance(50) {
 				h.sweep(p.paths[:3], false)
 			}
+		case k < 93:
+			h.stepSaveFile()
+		case k < 96:
+			// the operator puts an older copy of the file back; the running store must take it over as it is
+			if h.stepRestoreFile() {
+				h.stepReload()
+				h.secondStoreKey(p.paths, "reload-merges-with-memory")
+			}
 		default:
 			h.queryArt(path, uint32(r.Intn(h.nPost+2)), false)
 			h.queryCats(path[:r.Intn(len(path)+1)])
@@ -321,6 +329,61 @@ func c18EmptyReload(c *Case) {
 	c.Nontrivial(strings.Join(h.toks, " "))
 }
 
+// c18ForeignFile: the file is replaced by a copy that lacks a top-level item (and differs elsewhere);
+// Load() on the running store must then show exactly what a fresh store loads from that file.
+func c18ForeignFile(c *Case) {
+	r := c.R
+	h, err := newC18Run(c)
+	if err != nil {
+		c.Disagree("testserver", err.Error())
+		return
+	}
+	defer h.ts.Close()
+	var names [][]byte
+	for len(names) < 4 {
+		n := c18Name(r)
+		dup := false
+		for _, m := range names {
+			dup = dup || string(m) == string(n)
+		}
+		if !dup {
+			names = append(names, n)
+		}
+	}
+	a, b, cN, d := names[0], names[1], names[2], names[3]
+	post := func(p [][]byte) {
+		h.stepPost(p, 0, idField(r, 0), c18Text(r, 40), c18Text(r, 20), c18Text(r, 80))
+	}
+	h.stepCreate(nil, a, true)
+	post([][]byte{a})
+	if r.Bool() {
+		h.stepCreate(nil, b, false)
+		h.stepCreate([][]byte{b}, cN, true)
+		post([][]byte{b, cN})
+	}
+	h.stepSaveFile() // the copy: has a (and maybe b/c), lacks d
+	h.stepCreate(nil, d, r.Bool())
+	if r.Bool() {
+		post([][]byte{d})
+	}
+	post([][]byte{a})
+	if r.Bool() {
+		h.stepDelArt([][]byte{a}, 1, idField(r, 1))
+	}
+	if r.Chance(40) {
+		h.stepDelItem([][]byte{a})
+	}
+	paths := [][][]byte{{a}, {b, cN}, {d}, {b}}
+	h.stepRestoreFile()
+	h.stepReload()
+	h.secondStoreKey(paths, "reload-merges-with-memory")
+	// the next update must write back what was loaded, not what was in memory before
+	post([][]byte{a})
+	h.secondStoreKey(paths, "reload-merges-with-memory")
+	h.finish()
+	c.Nontrivial(strings.Join(h.toks, " "))
+}
+
 // c18LongThread: one category with 260-330 small articles (ids beyond one byte), some deletes in between.
 func c18LongThread(c *Case) {
 	r := c.R
@@ -368,6 +431,7 @@ func init() {
 		}
 		x.Add(&Family{Name: "histories", Quick: 2000, Thor: 20000, Run: c18History})
 		x.Add(&Family{Name: "empty-category-reload", Quick: 48, Thor: 600, Run: c18EmptyReload})
+		x.Add(&Family{Name: "foreign-file-reload", Quick: 40, Thor: 500, Run: c18ForeignFile})
 		x.Add(&Family{Name: "long-thread", Quick: 6, Thor: 60, Run: c18LongThread})
 		x.Add(&Family{Name: "yaml-unsafe-strings", Quick: 20, Thor: 200, Run: c18YamlFinding})
 	}
